@@ -70,6 +70,25 @@ func init() {
 			f.Dense = r.Intn(2) == 0
 			t := genTree(r, f)
 			addGenerators(r, t)
+			if len(t.Layers) > 1 && r.Intn(4) == 0 {
+				// a configuration-only child (no resources: a shared nameReference configuration for a custom kind) listed
+				// FIRST among the top's resources, and a custom resource whose reference only follows the rename of a generated
+				// ConfigMap if that configuration is merged in — in every order of the list
+				top := t.Layers[len(t.Layers)-1]
+				top.ResF = append(top.ResF, "cfgdemo.yaml")
+				top.Docs["cfgdemo.yaml"] = []Obj{{"apiVersion": "example.com/v1", "kind": "CfgDemo", "metadata": Obj{"name": "cfgdemo"}, "spec": Obj{"settingsRef": Obj{"name": "cfgdemo-cm"}}}}
+				gens, _ := top.Kust["configMapGenerator"].([]interface{})
+				top.Kust["configMapGenerator"] = append(gens, Obj{"name": "cfgdemo-cm", "literals": []interface{}{"a=b"}})
+				topDir := top.Dir
+				t.PostWrite = func(fs filesys.FileSystem, root string) {
+					fs.MkdirAll(root + "/cfgonly")
+					fs.WriteFile(root+"/cfgonly/kustomization.yaml", []byte("configurations:\n- c.yaml\n"))
+					fs.WriteFile(root+"/cfgonly/c.yaml", []byte("nameReference:\n- kind: ConfigMap\n  fieldSpecs:\n  - path: spec/settingsRef/name\n    kind: CfgDemo\n"))
+					p := root + "/" + topDir + "/kustomization.yaml"
+					b, _ := fs.ReadFile(p)
+					fs.WriteFile(p, []byte(strings.Replace(string(b), "resources:\n", "resources:\n- ../cfgonly\n", 1)))
+				}
+			}
 			fs := filesys.MakeFsInMemory()
 			t.Write(fs, "/w")
 			base, err, pnc := safeBuild(func() (string, error) { return runBuild(fs, t.TopDir("/w"), nil) })
